@@ -47,9 +47,14 @@ def core():
     D.append(Def('prio_multibyte', variants=[
         Var('Et', [T('é')]), Var('Word', [R('[a-zà-ÿ]+', prio=3)]), Var('Nihon', [T('日本')]), Var('Han', [R('[一-龥]+', prio=5)])],
         tags=('unicode', 'quick')))
-    D.append(Def('merge_ff', utf8=False, variants=[
-        Var('A', [R(b'(ab|\xFFb)c')]), Var('B', [R(b'(\x00\x00|\xFF\x00)\x01')]), Var('P', [T(b' ')]),
-        Var('Hi', [R(b'([\x80-\xFE]x|\xFFx)y')])], tags=('bytes', 'quick')))
+    # alternatives that the graph de-duplication folds into one edge (ByteClass::merge), with 0xFF / 0x00 in the classes
+    D.append(Def('merge_ff1', utf8=False, variants=[Var('B', [R(b'(\x00\x00|\xFF\x00)\x01')]), Var('P', [T(b' ')])],
+                 tags=('bytes', 'quick')))
+    D.append(Def('merge_ff2', utf8=False, variants=[Var('A', [R(b'(ab|\xFFb|\x00b)c')]), Var('P', [T(b' ')])],
+                 tags=('bytes', 'quick')))
+    D.append(Def('merge_ff3', utf8=False, variants=[Var('Hi', [R(b'([\x80-\xFE]x|\xFFx|zx)y')]), Var('P', [T(b' ')])],
+                 tags=('bytes', 'quick')))
+    D.append(Def('merge_str', variants=[Var('M', [R('(ab|éb|zb)c')]), Var('P', [T(' ')])], tags=('unicode', 'quick')))
     # --- negated classes folded into "range with exceptions" (non-looping, few edges), byte and str mode
     D.append(Def('neg_bytes', utf8=False, variants=[
         Var('Char', [R(b"'[^']'")]), Var('Quote', [T(b"'")]), Var('Esc', [R(rb'\\[^\n]')]), Var('Bs', [T(b'\\')]),
